@@ -726,6 +726,45 @@ Proof.
   eapply Forall_impl; [|exact H]. intros e [_ Hb] Hpos. cbv zeta in Hb.
   rewrite (render_length Hlen). apply Hb. assumption.
 Qed.
+(* the receiving side: unwrap, gunzip if flagged, split the payload into records.  The record splitters are
+   oracles too (a msgpack stream decoder / a JSON array parser): serialized records are self-delimiting. *)
+Variable parse_forward : bytes -> option (list R).
+Variable parse_json_array : bytes -> option (list R).
+Hypothesis parse_forward_concat : forall g, parse_forward (concat (map rbytes g)) = Some g.
+Hypothesis parse_json_array_spec : forall g, parse_json_array (json_array_bytes (map rbytes g)) = Some g.
+
+Notation receive := (receive R gunz mp_unwrap parse_forward parse_json_array).
+Notation all_received := (all_received R).
+
+Lemma receive_chunk : forall cfg e g, chunk_holds cfg e g -> receive cfg (chunk_data cfg e) = Some g.
+Proof.
+  intros cfg e g Hh. pose proof (chunk_decodes cfg e g Hh) as Hd. unfold ChunkSpec.receive.
+  destruct (cf_kind cfg).
+  - destruct Hd as [payload [Hu Hp]]. rewrite Hu, Hp. apply parse_forward_concat.
+  - rewrite Hd. apply parse_json_array_spec.
+Qed.
+
+Lemma all_received_holds : forall cfg em,
+  Forall (fun e => chunk_holds cfg e (e_records e)) em ->
+  all_received (map (fun e => receive cfg (chunk_data cfg e)) em) = Some (concat (map e_records em)).
+Proof.
+  intros cfg em H. induction H as [|e em He _ IH]; [reflexivity|].
+  cbn [map ChunkSpec.all_received concat]. rewrite (receive_chunk cfg e _ He), IH. reflexivity.
+Qed.
+
+(* end to end, on bytes: a receiver that decodes the chunks emitted up to a flush, in emission order, obtains
+   exactly the written records in order *)
+Lemma receiver_reconstructs_lemma : forall cfg ops,
+  let (st', em) := run cfg pstate_init (ops ++ [OFlush]) in
+  all_received (map (fun e => receive cfg (chunk_data cfg e)) em) = Some (written_of ops).
+Proof.
+  intros cfg ops.
+  pose proof (flush_completes_lemma cfg ops) as Hf.
+  pose proof (conservation_order_lemma cfg (ops ++ [OFlush])) as Hc.
+  destruct (run cfg pstate_init (ops ++ [OFlush])) as [st' em].
+  destruct Hf as [_ Hw]. destruct Hc as [_ Hg].
+  rewrite (all_received_holds cfg em Hg), Hw. reflexivity.
+Qed.
 End Bytes.
 End PackerProofs.
 
